@@ -25,7 +25,7 @@ import typing as T
 
 GEN_PY = r'''#!/usr/bin/env python3
 """gen.py MODE NAME OUT... IN...   tiny deterministic code generator (values are summed over all inputs)."""
-import re, sys
+import os, re, sys
 
 def vals(path):
     data = open(path, 'rb').read()
@@ -65,7 +65,7 @@ def main(a):
         outh, outc, ins = rest[0], rest[1], rest[2:]
         v = sum(vals(i) for i in ins)
         put(outh, '#ifndef H_%s\n#define H_%s\n#define V_%s (%d)\nint f_%s(void);\n#endif\n' % (name, name, name, v, name))
-        put(outc, '#include "%s.h"\nint f_%s(void) { return V_%s; }\n' % (name, name, name))
+        put(outc, '#include "%s"\nint f_%s(void) { return V_%s; }\n' % (os.path.basename(outh), name, name))
     elif mode == 'txt':
         out, ins = rest[0], rest[1:]
         v = sum(vals(i) for i in ins)
@@ -232,7 +232,7 @@ def blk_ct_header(P: Proj, p: str, d: str) -> None:
     """One custom_target header consumed by several targets; capture / depend_files / two-output index variants."""
     rng = P.rng
     v = P.deffile(d, p)
-    variant = P.pick('ct_header.variant', ['plain', 'capture', 'depend_files', 'index'])
+    variant = P.pick('ct_header.variant', ['plain', 'capture', 'capture-pair', 'depend_files', 'index'])
     P.feat('ct-header', 'ct-header:' + variant)
     used = P.take(1)
     fns: T.List[str] = []
@@ -244,6 +244,17 @@ def blk_ct_header(P: Proj, p: str, d: str) -> None:
         P.emit(d, f"{p}_h = custom_target('{p}_h', input: '{p}.def', output: '{p}.h', capture: true,\n"
                   f"  command: [py, gen, 'hdr', '{p}', '-', '@INPUT@'])")
         hdr_src, lib_extra = f'{p}_h', f'{p}_h'
+    elif variant == 'capture-pair':
+        # two captured outputs with the same stem in one directory (<p>.h / <p>.c), no edge between the two steps
+        P.emit(d, f"{p}_h = custom_target('{p}_h', input: '{p}.def', output: '{p}.h', capture: true,\n"
+                  f"  command: [py, gen, 'hdr', '{p}', '-', '@INPUT@'])")
+        P.val['f_' + p] = P.deffile(d, p + 'cs')
+        P.emit(d, f"{p}_cs = custom_target('{p}_cs', input: '{p}cs.def', output: '{p}.c', capture: true,\n"
+                  f"  command: [py, gen, 'src', '{p}', '-', '@INPUT@'])")
+        hdr_src, lib_extra = f'{p}_h', f'{p}_h, {p}_cs'
+        fns.append('f_' + p)
+        P.feat('capture-same-stem-pair')
+        P.ntargets += 1
     elif variant == 'depend_files':
         v += P.deffile(d, p + 'x')
         P.emit(d, f"{p}_h = custom_target('{p}_h', input: '{p}.def', output: '{p}.h',\n"
@@ -286,7 +297,7 @@ def blk_generator(P: Proj, p: str, d: str, default_library: str) -> None:
     """generator() headers and sources in a library; optionally a consumer relies on link recursion."""
     rng = P.rng
     P.feat('generator')
-    two = rng.random() < 0.3
+    two = P.flip('generator.two', 0.35)
     names_h = [p + 'x', p + 'y'][:rng.randint(1, 2)]
     for n in names_h:
         P.val['V_' + n] = P.deffile(d, n)
@@ -318,11 +329,15 @@ def blk_generator(P: Proj, p: str, d: str, default_library: str) -> None:
         v = P.deffile(d, n)
         P.val['V_' + n] = v
         P.val['f_' + n] = v
+        # the include file may carry a suffix that is neither a header nor a source suffix (.inc/.tbl/.def idiom):
+        # the backend then has to treat "anything that is not a source" of the target as an order dependency
+        sfx = P.pick('generator.two_suffix', ['h', 'inc', 'inc', 'tbl'])
         P.emit(d, f"{p}_g2 = generator(py, arguments: [gen_path, 'both', '@BASENAME@', '@OUTPUT0@', '@OUTPUT1@', '@INPUT@'],\n"
-                  f"  output: ['@BASENAME@.h', '@BASENAME@.c'])")
+                  f"  output: ['@BASENAME@.{sfx}', '@BASENAME@.c'])")
         srcs.append(f"{p}_g2.process('{n}.def')")
         fns.append('f_' + n)
-        P.feat('generator-multi-output')
+        two_hm = (f'{n}.{sfx}', 'V_' + n)
+        P.feat('generator-multi-output', 'generator-include-suffix:' + sfx)
     if P.flip('generator.source', 0.6):
         n = p + 'z'
         P.val['f_' + n] = P.deffile(d, n)
@@ -333,7 +348,7 @@ def blk_generator(P: Proj, p: str, d: str, default_library: str) -> None:
     used = P.take(1)
     um, uc = P.use_of(used, rng)
     hms = [(n + '.h', 'V_' + n) for n in names_h]
-    P.csrc(d, f'{p}_a.c', p + '_a', hms + um, uc)
+    P.csrc(d, f'{p}_a.c', p + '_a', hms + ([two_hm] if two else []) + um, uc)
     fns.append(f'f_{p}_a')
     kind = P.pick('generator.libkind', ['static_library', 'static_library', 'shared_library', 'library'])
     name = p + 'l'
